@@ -507,6 +507,11 @@ func (fc *FnCtx) condsOf(mi *monInfo) []CondDecl {
 // condRef: the *sync.Cond stored in field c.Field of the monitor's owner.
 func (fc *FnCtx) condRef(st *State, mi *monInfo, c CondDecl) string {
 	idx := fieldIndex(mi.owner, c.Field)
+	if sT, _ := mi.owner.Underlying().(*types.Struct); sT != nil {
+		if _, isStruct := sT.Field(idx).Type().Underlying().(*types.Struct); isStruct {
+			return fc.fieldAddr(st, mi.base, idx, token.NoPos).T // sync.Cond value field: its address
+		}
+	}
 	fc.inSpec++
 	v := fc.fieldOf(st, mi.base, idx, token.NoPos)
 	fc.inSpec--
